@@ -226,10 +226,66 @@ def chk_automatch(c):
                 pos[gi] = pt
 
 
-CHECKS = {'order': chk_order, 'history': chk_history, 'split': chk_split, 'automatch': chk_automatch}
+def chk_automatch_geo(c):
+    """automatch on reflected patches (2D and 3D): two local dofs get the same global index iff their Greville points coincide physically;
+    the numbering is a gap-free bijection onto these classes"""
+    from pyiga import assemble, geometry, bspline
+    dim = c['dim']
+    kvs = tuple(bspline.make_knots(c['p'], 0.0, 1.0, n) for n in c['n'])
+    base = geometry.unit_cube(dim=dim)
+    second = geometry.unit_cube(dim=dim).translate(tuple([1.0] + [0.0] * (dim - 1)))
+    # reflect the parametrisation of the second patch along the chosen parameter axes (the image stays the same cube)
+    C = np.asarray(second.coeffs)
+    for ax, fl in enumerate(c['reflect']):
+        if fl:
+            C = np.flip(C, axis=ax)
+    second = bspline.BSplineFunc(second.kvs, np.ascontiguousarray(C))
+    patches = [(kvs, base), (kvs, second)]
+    if c.get('swap'):
+        patches = patches[::-1]
+    mp = assemble.Multipatch(patches, automatch=True)
+    pts = []
+    for (k, g) in patches:
+        grev = [kv.greville() for kv in k]
+        X = g.grid_eval(grev).reshape(-1, dim)
+        pts.append(np.round(X, 9))
+    glob = [np.asarray(mp.patch_to_global_idx(p)).ravel() for p in range(2)]
+    # classes by physical position
+    key = {}
+    for p in range(2):
+        for i, x in enumerate(pts[p]):
+            key.setdefault(tuple(x.tolist()), []).append((p, i))
+    nclass = len(key)
+    assert mp.numdofs == nclass, 'numdofs = %d, expected %d (coinciding Greville points identified)' % (mp.numdofs, nclass)
+    bad = 0
+    for members in key.values():
+        ids = {int(glob[p][i]) for (p, i) in members}
+        if len(ids) != 1:
+            bad += 1
+    assert bad == 0, '%d groups of physically coinciding local dofs are not glued together' % bad
+    allids = np.concatenate(glob)
+    assert sorted(set(allids.tolist())) == list(range(mp.numdofs)), 'global numbering is not a gap-free bijection'
+    # no two physically different dofs share an index
+    owner = {}
+    for p in range(2):
+        for i, x in enumerate(pts[p]):
+            gid = int(glob[p][i])
+            if gid in owner:
+                assert owner[gid] == tuple(x.tolist()), 'dofs at different positions share global index %d' % gid
+            owner[gid] = tuple(x.tolist())
+
+
+CHECKS = {'automatch_geo': chk_automatch_geo, 'order': chk_order, 'history': chk_history, 'split': chk_split, 'automatch': chk_automatch}
 
 
 def generate(tier, rng):
+    import itertools as _it
+    for refl in _it.product((False, True), repeat=2):
+        for swap in (False, True):
+            yield 'automatch_geo', {'dim': 2, 'p': 2, 'n': [2, 3], 'reflect': list(refl), 'swap': swap}
+    for refl in _it.product((False, True), repeat=3):
+        for swap in (False, True):
+            yield 'automatch_geo', {'dim': 3, 'p': 1 + int(refl[0]), 'n': [2, 2, 3], 'reflect': list(refl), 'swap': swap}
     quick = tier == 'quick'
     for name in ('grid2x1', 'grid2x2', 'ring3', 'ring4', 'ring5') + (() if quick else ('ring6',)):
         dim, npatch, joins = _complex(name)
